@@ -134,7 +134,7 @@ func hoRun(in []byte) (interface{}, error) {
 		want := append(append([]byte{}, rdbBytes...), stream...)
 		var got []byte
 		readAll := func(r io.Reader, need int) {
-			deadline := time.Now().Add(8 * time.Second)
+			deadline := time.Now().Add(hoBudget(c)) // generous and proportional to the volume: a slow machine must not look like lost bytes
 			buf := make([]byte, 1<<16)
 			type res struct {
 				n   int
